@@ -275,6 +275,13 @@ impl MissingFieldLocationGuard {
         Self { prev }
     }
 
+    /// Start a scope without any fallback location (a new, independent document). The value
+    /// that was current before is restored when the guard is dropped.
+    pub(crate) fn cleared() -> Self {
+        let prev = MISSING_FIELD_FALLBACK.with(|c| c.replace(None));
+        Self { prev }
+    }
+
     /// Update the fallback location in place, reusing the existing guard's restore point.
     pub(crate) fn replace_location(&mut self, location: Location) {
         MISSING_FIELD_FALLBACK.with(|c| c.set(Some(location)));
